@@ -246,6 +246,31 @@ class MatchesRequest(Harness):
 
     def finding_key(self, v): return 'C06 response_matches_request'
 
+    def replay(self, world, v):
+        m = v.get('model') or {}
+        def msg(t):
+            g = lambda k, d=0: m.get(t + k, d)
+            b = lambda k: str(bool(g(k, False))).lower()
+            qs = []
+            for i in range(int(g('nq', 0) or 0)):
+                lab = chr(int(m.get(f'{t}q{i}_0', ALPHA[0]) or ALPHA[0]))
+                qs.append('Question { name: domain("%s."), qtype: QueryType::from(%du16), qclass: QueryClass::from(%du16) }' % (lab, int(m.get(f'{t}q{i}t', 1) or 1), int(m.get(f'{t}q{i}c', 1) or 1)))
+            return ('Message { header: Header { id: %d, is_response: %s, opcode: Opcode::from(%du8), is_authoritative: %s, is_truncated: %s, recursion_desired: %s, recursion_available: %s, rcode: Rcode::from(%du8) }, '
+                    'questions: vec![%s], answers: vec![], authority: vec![], additional: vec![] }') % (int(g('id') or 0), b('qr'), int(g('op') or 0), b('aa'), b('tc'), b('rd'), b('ra'), int(g('rc') or 0), ', '.join(qs))
+        src = '''use super::*;
+use dns_types::protocol::types::test_util::*;
+#[test]
+fn replay() {
+    let req = %s;
+    let rsp = %s;
+    let want = req.header.id == rsp.header.id && rsp.header.is_response && req.header.opcode == rsp.header.opcode && !rsp.header.is_truncated
+        && (rsp.header.rcode == Rcode::NoError || rsp.header.rcode == Rcode::NameError) && req.questions == rsp.questions;
+    let got = response_matches_request(&req, &rsp);
+    assert!(got == want, "VERIF-VIOLATED response_matches_request says {got} for request {req:?} and reply {rsp:?}");
+}
+''' % (msg('a'), msg('b'))
+        return run_replay_resolver(world, 'C06', self.name, src, 'crates/dns-resolver/src/util/nameserver.rs', {'model': m})
+
 
 def harnesses(world, tier, seed):
     q = tier == 'quick'
